@@ -239,10 +239,47 @@ def cases(draw, specs: st.SearchStrategy[t.Any]) -> t.Any:
     return [spec, v, 'valid', v2]
 
 
+# ---- fields pane does not take on input (init=False) but writes on output (known finding D73) -----------------
+
+@st.composite
+def init_false_cases(draw) -> t.Any:
+    return [draw(st.sampled_from(['struct', 'tuple'])), draw(st.integers(-3, 3)), draw(st.booleans()), draw(st.sampled_from([None, 'camel', 'scream']))]
+
+
+_IF_CACHE: t.Dict[str, t.Any] = {}
+
+
+def check_init_false(case: t.Any, ctx: Ctx) -> None:
+    import pane
+    (layout, a, derived_first, rename) = case
+    key = repr((layout, derived_first, rename))
+    if key not in _IF_CACHE:
+        ann = {'twice': int, 'a': int} if derived_first else {'a': int, 'twice': int}
+        opts: t.Dict[str, t.Any] = {'in_format': (layout,), 'out_format': layout}
+        if rename:
+            opts['rename'] = rename
+        _IF_CACHE[key] = type('Derived', (pane.PaneBase,), {'__annotations__': ann, 'twice': pane.field(init=False, default=0)}, **opts)
+    Cls = _IF_CACHE[key]
+    ctx.label(f"init-false:{layout}")
+    ctx.nontrivial(True)
+    ctx.evaluated()
+    x = pane.from_data({'a': a} if layout == 'struct' else [a], Cls)
+    (k, d) = outcome(lambda: pane.into_data(x, Cls))
+    if k != 'ok':
+        ctx.fail('into_data-total', 'dataclass:init-false-field-in-output', f"into_data raised {type(d).__name__}: {d}")
+        return
+    (k, y) = outcome(lambda: pane.from_data(d, Cls))
+    if k != 'ok' or y != x:
+        ctx.fail('reparse', 'dataclass:init-false-field-in-output', f"class Derived(PaneBase, in_format=({layout!r},), out_format={layout!r}): a: int; twice: int = field(init=False, default=0); "
+                 f"x = {x!r}; into_data(x) = {d!r}; from_data of that: {str(y)[:200]}")
+
+
 def suites(tier: str) -> t.List[Suite]:
     big = tier == 'thorough'
     leaves = 8 if big else 4
     return [
         Suite('roundtrip', check, strategy=lambda: cases(gen.all_type_specs(leaves)), examples=8000 if big else 600, budget_s=480 if big else 40, render=gen.render_case),
+        Suite('init-false', check_init_false, strategy=init_false_cases, examples=200 if big else 20, budget_s=30 if big else 10,
+              render=lambda c: {'layout': c[0], 'a': c[1], 'derived field first': c[2], 'rename': c[3]}),
         Suite('overlap-unions', check, strategy=lambda: cases(gen.overlap_union_specs()), examples=4000 if big else 450, budget_s=300 if big else 30, render=gen.render_case),
     ]
